@@ -552,6 +552,9 @@ func runSys(raw json.RawMessage) (out interface{}, err error) {
 			st.Deferred = true
 			st.Reqs = run.newReqs()
 			st.State = run.state()
+			if run.suites != nil {
+				st.Policy = run.suites.dump()
+			}
 		} else if err := run.snapshot(&st); err != nil {
 			o.Fatal = fmt.Sprintf("op %d (%s): %v", i, op.Op, err)
 			return o, nil
